@@ -760,7 +760,7 @@ def gen_props(rng, names=None):
     return props
 
 
-def gen_message(rng, side, ch, kind="auto", body=None, split=None, props=None):
+def gen_message(rng, side, ch, kind="auto", body=None, split=None, props=None, hb=None):
     """Events of one content-carrying method: method, header, body frames."""
     if kind == "auto":
         kind = "publish" if side == "c" else rng.choice(["deliver", "deliver", "return", "get-ok"])
@@ -775,6 +775,11 @@ def gen_message(rng, side, ch, kind="auto", body=None, split=None, props=None):
     for n in split:
         evs.append(Ev(side, "body", ch, data=body[pos:pos + n]))
         pos += n
+    if hb is None:
+        hb = rng.random() < 0.25
+    if hb:
+        # heartbeats may come between any two frames, also inside a message
+        evs.insert(rng.randint(1, len(evs) - 1) if len(evs) > 1 else 1, Ev(side, "hb"))
     return evs
 
 
@@ -881,8 +886,8 @@ def gen_feature(rng, which):
     elif which == "emptybody":
         evs = gen_message(rng, "c", ch, "publish", body=b"", split=[]) + gen_message(rng, "s", ch, "deliver", body=b"", split=[])
     elif which == "interleave":
-        m1 = gen_message(rng, "c", 1, "publish", body=b"one")
-        m2 = gen_message(rng, "c", 2, "publish", body=b"two")
+        m1 = gen_message(rng, "c", 1, "publish", body=b"one", hb=False)
+        m2 = gen_message(rng, "c", 2, "publish", body=b"two", hb=False)
         evs = [m1[0], m2[0], m1[1], m2[1], m1[2], m2[2]] if rng.random() < 0.5 else \
             [m1[0], Ev("c", "method", 2, 60, 80, gen_args(rng, 60, 80)), m1[1], m1[2]]
     elif which == "server-init":
@@ -1277,6 +1282,15 @@ def c01_cases(ctx, rng=None):
         if rng.random() < 0.2:
             c, s = corrupt(rng, c), corrupt(rng, s)
         cases.append((case_line("cor%d" % i, c, s, ct=rng.choice([0, 0, 1, 2]), st=rng.choice([0, 0, 1, 2]), order=rng.choice(["cs", "sc"])), "corrupt", None))
+    # every length field of a conversation rich in tables replaced by the boundary values
+    rich = Conv(gen_method_sweep_one(rng, 50, 10) + [Ev("s", "method", 1, 50, 11, gen_args(rng, 50, 11))] + gen_message(rng, "c", 1, "publish"), "tables")
+    for side in "cs":
+        data = rich.stream(side)
+        for off, w, what in rich.size_fields(side):
+            for v in boundary_values(w, len(data) - off - w):
+                mut = data[:off] + v.to_bytes(w, "big") + data[off + w:]
+                cases.append((case_line("bnd%s%d_%d" % (side, off, v), mut if side == "c" else rich.stream("c"),
+                                        mut if side == "s" else rich.stream("s")), "boundary", None))
     for i in range(300 if quick else 20000):
         cases.append((case_line("rnd%d" % i, gen_random_stream(rng), gen_random_stream(rng), ct=rng.choice([0, 0, 1, 2]),
                                 st=rng.choice([0, 0, 1, 2]), order=rng.choice(["cs", "sc"])), "random", None))
